@@ -5,6 +5,8 @@ use crate::proto::*;
 use crate::{CaseInput, Exec};
 use oauth2::*;
 use serde::{Deserialize, Serialize};
+#[allow(unused_imports)]
+use serde::de::IntoDeserializer;
 use std::collections::hash_map::DefaultHasher;
 use std::hash::{Hash, Hasher};
 
@@ -48,6 +50,11 @@ const POOL: &[&str] = &[
     "data:text/plain,hi",
     "file:///etc/passwd",
     " https://example.com/ ",
+    "\u{a0}https://example.com/",
+    "https://example.com/\u{a0}",
+    "\u{2003}https://example.com/\u{2003}",
+    "https://example.com/\u{3000}",
+    "\u{feff}https://example.com/",
     "https://example.com/\t",
     "ht\ntps://example.com/",
     // relative references, empty, garbage
@@ -107,7 +114,8 @@ fn side<T: U>(s: &str, oracle: &mut Vec<(String, String)>, lbl: &str) -> (Option
                 oracle.push(("C18:valid-rejected".into(), format!("{lbl}: {s:?} is a valid absolute URL but new() failed")));
             }
             // invalid strings must be rejected at deserialisation too
-            let de_ok = serde_json::from_str::<T>(&serde_json::to_string(s).unwrap()).is_ok();
+            let de_ok = serde_json::from_str::<T>(&serde_json::to_string(s).unwrap()).is_ok()
+                || serde_json::from_value::<T>(serde_json::Value::String(s.to_string())).is_ok();
             if de_ok && indep.is_none() {
                 oracle.push(("C18:invalid-deserialised".into(), format!("{lbl}: {s:?}")));
             }
@@ -130,7 +138,11 @@ fn side<T: U>(s: &str, oracle: &mut Vec<(String, String)>, lbl: &str) -> (Option
                 oracle.push(("C18:serialised-altered".into(), format!("{lbl}: {ser}")));
             }
             let back: Result<T, _> = serde_json::from_str(&ser);
-            let de_ok = matches!(&back, Ok(w) if *w == v && w.parsed() == v.parsed() && w.text() == v.text());
+            // owned-string paths of the visitor (visit_string) must behave like the borrowed one
+            let back_owned: Result<T, _> = serde_json::from_value(serde_json::Value::String(s.to_string()));
+            let back_sd: Result<T, serde::de::value::Error> = T::deserialize(serde::de::value::StringDeserializer::new(s.to_string()));
+            let same = |w: &T| *w == v && w.parsed() == v.parsed() && w.text() == v.text();
+            let de_ok = matches!(&back, Ok(w) if same(w)) && matches!(&back_owned, Ok(w) if same(w)) && matches!(&back_sd, Ok(w) if same(w));
             if !de_ok {
                 oracle.push(("C18:serde-roundtrip".into(), format!("{lbl}: {ser} -> {back:?}")));
             }
